@@ -244,6 +244,9 @@ func c18Gen(seed uint64) c18Case {
 		cs.Mode = "lib"
 	case x < 88:
 		cs.Mode = "cli"
+		if r.IntN(3) == 0 {
+			cs.Mode = "clif" // the main program is a file given with -f, the command runs in another directory
+		}
 	case x < 94:
 		cs.Mode = "clirel"
 	case x < 97:
@@ -269,7 +272,7 @@ func c18Gen(seed uint64) c18Case {
 	}
 	homeFile := false
 	switch cs.Mode {
-	case "cli", "clirel":
+	case "cli", "clirel", "clif":
 		bases = append(bases, "cwd/loc", "cwd")
 	case "home":
 		cs.Libs = []string{"home/.jq"}
